@@ -9,12 +9,13 @@ Local Open Scope string_scope. Local Open Scope list_scope.
 
 (* the checker accepts only crates satisfying the declarative predicate [wf_crate] (Crate/Spec.v): every element
    of @graph has a string @id; @ids are unique; every non-web reference resolves; every File entity is in the
-   archive with the recorded checksum/size; every run value is represented *)
-Theorem C34_checker_sound : forall g ar vs, crate_ok g ar vs = true -> wf_crate g ar vs.
+   archive with the recorded checksum/size; every run value is represented; the actions of a step list as result
+   what that step produced and nothing else *)
+Theorem C34_checker_sound : forall g ar vs ss, crate_ok g ar vs ss = true -> wf_crate g ar vs ss.
 Proof. exact crate_ok_sound. Qed.
 
 (* ... and it rejects no crate that satisfies it: a rejection by the checker is a real defect of the crate *)
-Theorem C34_checker_complete : forall g ar vs, wf_crate g ar vs -> crate_ok g ar vs = true.
+Theorem C34_checker_complete : forall g ar vs ss, wf_crate g ar vs ss -> crate_ok g ar vs ss = true.
 Proof. exact crate_ok_complete. Qed.
 
 (* the executable collection of references is exactly "occurs as a reference object at any depth" *)
@@ -27,12 +28,12 @@ Proof. exact reachb_spec. Qed.
 
 (* consequences for an accepted crate -------------------------------------------------------------- *)
 (* unique identifiers: an @id resolves to exactly one entity *)
-Theorem C34_lookup_unique : forall g ar vs, wf_crate g ar vs ->
+Theorem C34_lookup_unique : forall g ar vs ss, wf_crate g ar vs ss ->
   forall i e1 e2, Entity g i e1 -> Entity g i e2 -> e1 = e2.
 Proof. exact wf_lookup_unique. Qed.
 
 (* self-contained: a File entity recording checksum h has an archive entry under its @id with digest h *)
-Theorem C34_file_present : forall g ar vs, wf_crate g ar vs ->
+Theorem C34_file_present : forall g ar vs ss, wf_crate g ar vs ss ->
   forall e i h, Entity g i e -> HasType e "File" -> get e "sha1" = Some (JStr h) ->
     exists s, In (i, h, s) ar.
 Proof. exact wf_file_present. Qed.
@@ -43,6 +44,13 @@ Theorem C34_value_file_in_archive : forall g ar inp p h s,
   Represented g ar (RV inp p (VItem (IFile h s))) ->
   exists y e, Entity g y e /\ HasType e "File" /\ In (y, h, s) ar.
 Proof. exact represented_file_in_archive. Qed.
+
+(* consistent at step level: whatever an action orchestrated for a step lists as result carries the value that
+   step produced (so the product of step s10 is never listed under step s1) *)
+Theorem C34_step_results_only : forall g ar vs ss, wf_crate g ar vs ss ->
+  forall v c aid a x, In v ss -> In c g -> IsControl c (sv_step v) -> PRef c "object" aid -> Entity g aid a ->
+    PRef a "result" x -> exists e, Entity g x e /\ ValOk g ar e x (sv_val v).
+Proof. exact wf_step_results. Qed.
 
 (* non-vacuity: a miniature crate (one File input, one literal input, one File[] output, one Directory input)
    that the checker accepts — so [wf_crate] is satisfiable with every kind of value — and the same crate with a
@@ -68,34 +76,45 @@ Definition mini : graph :=
     JObj [("@id", JStr "dd/sub/f2"); ("@type", JStr "File"); ("sha1", JStr "f2")];
     JObj [("@id", JStr "#out"); ("@type", JStr "PropertyValue"); ("value", JArr [ref "f1"; ref "g2"]);
           ("exampleOfWork", ref "wf.cwl#o")];
-    JObj [("@id", JStr "g2"); ("@type", JStr "File"); ("sha1", JStr "g2")] ].
+    JObj [("@id", JStr "g2"); ("@type", JStr "File"); ("sha1", JStr "g2")];
+    JObj [("@id", JStr "wf.cwl#s1"); ("@type", JStr "HowToStep")];
+    JObj [("@id", JStr "#c1"); ("@type", JStr "ControlAction"); ("instrument", ref "wf.cwl#s1"); ("object", JArr [ref "#a1"])];
+    JObj [("@id", JStr "#a1"); ("@type", JStr "CreateAction"); ("instrument", ref "wf.cwl#s1"); ("result", JArr [ref "g2"])] ].
+Definition mini_ss : list sv := [ SV "wf.cwl#s1" (VItem (IFile "g2" 3)) ].
 Definition mini_ar : list entry :=
   [("wf.cwl", "aa", 100%N); ("f1", "f1", 6%N); ("dd/", "-", 0%N); ("dd/sub/f2", "f2", 2%N); ("g2", "g2", 3%N)].
 Definition mini_vs : list rv :=
   [ RV true "f" (VItem (IFile "f1" 6)); RV true "m" (VItem (ILit ["True"; "true"]));
     RV true "d" (VDir [("f2", 2%N)]); RV false "o" (VList [IFile "f1" 6; IFile "g2" 3]) ].
 
-Example C34_mini_accepted : crate_ok mini mini_ar mini_vs = true /\ wf_crate mini mini_ar mini_vs.
-Proof. assert (H : crate_ok mini mini_ar mini_vs = true) by (vm_compute; reflexivity).
+Example C34_mini_accepted : crate_ok mini mini_ar mini_vs mini_ss = true /\ wf_crate mini mini_ar mini_vs mini_ss.
+Proof. assert (H : crate_ok mini mini_ar mini_vs mini_ss = true) by (vm_compute; reflexivity).
        split; [exact H|apply crate_ok_sound; exact H]. Qed.
 (* file deleted before export: the entity stays, the entry is gone *)
 Example C34_mini_missing_file_rejected :
-  crate_ok mini (filter (fun en => negb (String.eqb (en_name en) "dd/sub/f2")) mini_ar) mini_vs = false /\
-  ~ wf_crate mini (filter (fun en => negb (String.eqb (en_name en) "dd/sub/f2")) mini_ar) mini_vs.
-Proof. assert (H : crate_ok mini (filter (fun en => negb (String.eqb (en_name en) "dd/sub/f2")) mini_ar) mini_vs = false)
+  crate_ok mini (filter (fun en => negb (String.eqb (en_name en) "dd/sub/f2")) mini_ar) mini_vs mini_ss = false /\
+  ~ wf_crate mini (filter (fun en => negb (String.eqb (en_name en) "dd/sub/f2")) mini_ar) mini_vs mini_ss.
+Proof. assert (H : crate_ok mini (filter (fun en => negb (String.eqb (en_name en) "dd/sub/f2")) mini_ar) mini_vs mini_ss = false)
          by (vm_compute; reflexivity).
        split; [exact H|]. intro W. apply crate_ok_complete in W. congruence. Qed.
 Example C34_mini_wrong_size_rejected :
-  crate_ok mini (("f1", "f1", 7%N) :: mini_ar) mini_vs = false.
+  crate_ok mini (("f1", "f1", 7%N) :: mini_ar) mini_vs mini_ss = false.
 Proof. vm_compute. reflexivity. Qed.
-Example C34_mini_duplicate_id_rejected : crate_ok (mini ++ [JObj [("@id", JStr "g2"); ("@type", JStr "Thing")]]) mini_ar mini_vs = false.
+Example C34_mini_duplicate_id_rejected : crate_ok (mini ++ [JObj [("@id", JStr "g2"); ("@type", JStr "Thing")]]) mini_ar mini_vs mini_ss = false.
 Proof. vm_compute. reflexivity. Qed.
 Example C34_mini_dangling_ref_rejected :
-  crate_ok (mini ++ [JObj [("@id", JStr "#x"); ("@type", JStr "Thing"); ("about", ref "nowhere")]]) mini_ar mini_vs = false /\
-  crate_ok (mini ++ [JObj [("@id", JStr "#x"); ("@type", JStr "Thing"); ("about", ref "https://example.org/")]]) mini_ar mini_vs = true.
+  crate_ok (mini ++ [JObj [("@id", JStr "#x"); ("@type", JStr "Thing"); ("about", ref "nowhere")]]) mini_ar mini_vs mini_ss = false /\
+  crate_ok (mini ++ [JObj [("@id", JStr "#x"); ("@type", JStr "Thing"); ("about", ref "https://example.org/")]]) mini_ar mini_vs mini_ss = true.
 Proof. vm_compute. split; reflexivity. Qed.
 Example C34_mini_value_missing_rejected :
-  crate_ok mini mini_ar (RV false "o" (VList [IFile "g2" 3; IFile "f1" 6]) :: mini_vs) = false.
+  crate_ok mini mini_ar (RV false "o" (VList [IFile "g2" 3; IFile "f1" 6]) :: mini_vs) mini_ss = false.
+Proof. vm_compute. reflexivity. Qed.
+
+(* a step's action that also lists the product of another step (the s1 / s10 confusion) is rejected *)
+Example C34_mini_foreign_step_result_rejected :
+  crate_ok (mini ++ [JObj [("@id", JStr "#c2"); ("@type", JStr "ControlAction"); ("instrument", ref "wf.cwl#s1"); ("object", JArr [ref "#a2"])];
+                     JObj [("@id", JStr "#a2"); ("@type", JStr "CreateAction"); ("result", JArr [ref "g2"; ref "f1"])]])
+           mini_ar mini_vs mini_ss = false.
 Proof. vm_compute. reflexivity. Qed.
 
 Print Assumptions C34_checker_sound.
@@ -105,3 +124,4 @@ Print Assumptions C34_reach_exact.
 Print Assumptions C34_lookup_unique.
 Print Assumptions C34_file_present.
 Print Assumptions C34_value_file_in_archive.
+Print Assumptions C34_step_results_only.
